@@ -308,7 +308,7 @@ def run(tier, seed, log, model_runs=True, enlarged=False):
                                   "unchanged, repeated text exports identical, RDF isomorphic; same-calls determinism: a sample "
                                   "of programs is built twice in one fresh interpreter and the texts of the two builds compared "
                                   "(thorough: under three PYTHONHASHSEEDs)",
-                        extra_cases=fixed_programs() + __import__('harness.progs', fromlist=['x']).equal_values_programs() + __import__('harness.progs', fromlist=['x']).same_text_programs(("ExportJson", "ExportProvn"), derive=True, memberships=True),
+                        extra_cases=fixed_programs() + __import__('harness.progs', fromlist=['x']).equal_values_programs() + __import__('harness.progs', fromlist=['x']).same_text_programs((), derive=False, memberships=True) + __import__('harness.progs', fromlist=['x']).same_text_programs(("ExportJson", "ExportProvn"), derive=True, memberships=True),
                         theorem_note="C13_exports_frame / C12_frame over Interp.step")
     # two documents built by the same calls export identical text
     import random
